@@ -52,6 +52,7 @@ class TracepointConfigService:
     def __init__(self) -> None:
         """Create new tracepoint config service."""
         self._custom: List['Trigger'] = []
+        self._custom_by_id: Dict[str, 'Trigger'] = {}
         self._tracepoint_config: List['Trigger'] = []
         self._current_hash = None
         self._last_update = 0
@@ -161,10 +162,13 @@ class TracepointConfigService:
         :param metrics: the tracepoint metrics
         :return: the new TracePointConfig
         """
-        config = build_trigger(str(uuid.uuid4()), path, line, args, watches, metrics)
+        tp_id = str(uuid.uuid4())
+        config = build_trigger(tp_id, path, line, args, watches, metrics)
         self._custom.append(config)
+        # the location id is shared by every tracepoint on the same line, so we key on the unique tracepoint id
+        self._custom_by_id[tp_id] = config
         self.__trigger_update(None, None)
-        return config.id
+        return tp_id
 
     def remove_custom(self, _id: str):
         """
@@ -172,8 +176,11 @@ class TracepointConfigService:
 
         :param _id: the id of the config to remove
         """
+        config = self._custom_by_id.pop(_id, None)
+        if config is None:
+            return
         for idx, cfg in enumerate(self._custom):
-            if cfg.id == _id:
+            if cfg is config:
                 del self._custom[idx]
                 self.__trigger_update(None, None)
                 return
